@@ -199,22 +199,36 @@ Definition expected_raw (v : value) : cell :=
   | VStr s => OStr s
   end.
 
-(* a string cell in the reading: not empty, ASCII, and neither int() nor float() accepts it.  (int()
-   and float() also accept non-ASCII decimal digits and white space, which the character model of
-   py_int / py_float does not know: strings with bytes >= 128 are outside the reading.) *)
+(* a string cell in the reading: not empty, and neither int() nor float() accepts it.  int() and float() also
+   strip Unicode white space (FS GS RS US, NEL, NBSP, LS, PS ...) and accept non-ASCII decimal digits, which the
+   byte model of py_int / py_float does not know.  So a string is in the reading when the model rejects it and
+   either it is plain ASCII without FS GS RS US (the model then decides like CPython), or it holds a "mark": a
+   printable ASCII character that is neither a digit, a sign, '_', '.', nor a letter of e / inf / nan / infinity
+   -- CPython rejects every string with such a character, whatever else (any non-ASCII text as UTF-8 bytes,
+   control characters) it holds. *)
 Definition is_ascii_str (s : string) : bool := forallb (fun c => code c <? 128) (s2l s).
+Definition num_alpha_char (c : ascii) : bool :=
+  is_digit c || existsb (Ascii.eqb c) (s2l "+-_.einfatyEINFATY").
+Definition mark_char (c : ascii) : bool := (33 <=? code c) && (code c <=? 126) && negb (num_alpha_char c).
+Definition plain_char (c : ascii) : bool := (code c <? 28) || ((32 <=? code c) && (code c <? 128)).
 Definition nonnumeric (s : string) : bool :=
-  negb (String.eqb s "") && is_ascii_str s &&
+  negb (String.eqb s "") && (forallb plain_char (s2l s) || existsb mark_char (s2l s)) &&
   match py_int (s2l s), py_float (s2l s) with None, None => true | _, _ => false end.
-(* cells the csv layer transports unchanged: no NUL, no line break (files are read with universal
-   newlines) *)
+(* header cells / field names: no NUL, no line break (the delimiter is detected on the first physical line) *)
 Definition char_csv_ok (c : ascii) : bool := negb ((code c =? 0) || (code c =? 10) || (code c =? 13)).
 Definition ctext_ok (t : ctext) : bool :=
   match t with CT s => forallb char_csv_ok (s2l s) end.
 Definition str_csv_ok (s : string) : bool := forallb char_csv_ok (s2l s).
+(* cells the csv layer transports unchanged: every character but NUL (csv.writer quotes a cell holding LF or
+   CR; the readers open the file with newline='', so a quoted CR / CR LF / LF comes back as written; the other
+   line boundaries of str.splitlines -- VT FF FS GS RS NEL LS PS -- are ordinary characters for csv) *)
+Definition char_cell_ok (c : ascii) : bool := negb (code c =? 0).
+Definition ctext_cell_ok (t : ctext) : bool :=
+  match t with CT s => forallb char_cell_ok (s2l s) end.
+Definition str_cell_ok (s : string) : bool := forallb char_cell_ok (s2l s).
 Definition value_ok (v : value) : bool :=
   match v with
-  | VStr s => nonnumeric s && str_csv_ok s
+  | VStr s => nonnumeric s && str_cell_ok s
   | VFloat (FFin _ m _) => 0 <=? m
   | _ => true
   end.
@@ -363,7 +377,7 @@ Record Float_OK (F : floatlayer) : Prop := {
   fl_chars : forall f, f64_ok f = true -> forallb float_char (frepr F f) = true }.
 
 Record Csv_OK {T : Type} (V : csvlayer T) : Prop := {
-  csv_rt : forall dl lines, forallb (forallb ctext_ok) lines = true ->
+  csv_rt : forall dl lines, forallb (forallb ctext_cell_ok) lines = true ->
                             csv_read V dl (csv_write V dl lines) = Some lines;
   csv_tab : forall dl h rest, forallb ctext_ok h = true ->
               first_line_tab V (csv_write V dl (h :: rest)) =
